@@ -24,6 +24,70 @@ CHECKS = {
          "Trusted: the edits-only twin (same implementation, checked absolutely by C01), canonical-state merging "
          "(can hide only bugs depending on dict orders/weak caches), CPython 3.12. Bounds: depth, alphabets in mxmc/evalfam.py.",
          "DESIGN.md section 2 C02"),
+ "C01": ("model_checking",
+         "explicit-state BFS over request orders on the real implementation, reference evaluator + formula-start log as oracle",
+         "All assignments of terminating formula templates to 4 cells (126 programs quick, 700 thorough) x BFS over the order "
+         "in which 9 elements are requested (depth 3/4, states merged by held set), each request issued in a rotating spelling "
+         "and every other spelling (positional, keyword, defaults, subscription, .value, attribute) checked as an alias. Values "
+         "are compared with an uncached reference evaluator; the tick() log proves no held element runs again and no element "
+         "runs twice.",
+         "Trusted: mxmc/refsem.py reference evaluator (shares only formula source text), tick() log, CPython. Bounds: argument "
+         "values 0..1, depth, template menu in mxmc/drivers/c01.py.",
+         "DESIGN.md section 2 C01"),
+ "C05": ("fault_enumeration",
+         "exhaustive fault-point enumeration: BFS over arm/disarm/query histories on the real implementation, every element a failure point",
+         "All DAG shapes on <=3 (thorough 4) elements written as def formulas, with uncached subsets, plus recursion, a catching "
+         "formula, lambdas/comprehensions and an ItemSpace shape; every element (and the ItemSpace node) x 5 exception kinds "
+         "(ValueError, custom Exception, ZeroDivisionError, custom BaseException, returning None) is armed in BFS histories of "
+         "arm/disarm/query (depth 4/5, 1/2 faults). Oracle: reference evaluation with the same faults and held set; FormulaError "
+         "wraps the very exception object; no element of the failing chain holds a value; completed ones keep values; executor "
+         "idle; graph == cache; retries give reference values. Recursion limit: limits 1..40 (66) x all lengths 0..limit+2, "
+         "limits 1000/10000(/100000) in subprocesses.",
+         "Trusted: tick() fault injection at formula start, mxmc/refsem.py, CPython. Boundary lengths limit/limit+1 accepted either way.",
+         "DESIGN.md section 2 C05"),
+ "C06": ("model_checking",
+         "explicit-state BFS over value-edit histories on all small DAGs, reference call trees as oracle",
+         "All DAGs on <=3 (thorough 4) elements in two encodings with uncached subsets x recalc option off/on; BFS (depth 4/3; "
+         "thorough 5/4) over query / assign / overwrite / clear_at / clear / clear_all / del value / reference change. After each "
+         "edit the held set must equal held-before minus exactly the elements whose reference call tree contains the edited "
+         "element; kept elements are served with zero formula starts and reference values; inputs persist; with recalc on the "
+         "discarded dependents are recomputed at once to reference values and nothing else starts.",
+         "Trusted: mxmc/refsem.py call trees, tick() log. Static control flow in generated formulas.",
+         "DESIGN.md section 2 C06"),
+ "C08": ("model_checking",
+         "explicit-state BFS over edit/evaluation histories on the real implementation; preds/succs/precedents vs reference call trees",
+         "Same histories as C02 (depth 3/4 over 10 roots). After every history, for every held element: preds() == cached elements "
+         "the reference evaluation calls directly or through uncached cells + those uncached cells; succs() is the inverse; "
+         "precedents() contains every reference read by attribute path; key-carrying graph nodes == held elements + live "
+         "ItemSpaces; acyclic; no node of a deleted object.",
+         "Trusted: mxmc/refsem.py, ops.apply_ref tracking of definitions (histories it does not define are judged on graph clauses only).",
+         "DESIGN.md section 2 C08"),
+ "C09": ("model_checking",
+         "explicit-state BFS over edit/evaluation histories under every cached-flag assignment, differential oracle vs all-cached twin",
+         "For each of 10 roots, every assignment with <=2 uncached cells (thorough: all 2^n) x BFS over edit/eval histories incl. "
+         "flag changes at any point (depth 2/3): the sequence of values / exception types of all evaluations and of the final "
+         "probe-all equals that of the all-cached twin; uncached cells hold nothing, run on every call, accept unhashable arguments.",
+         "Trusted: the all-cached twin (same implementation; C01/C02 check it absolutely). Histories assigning values to a cells that is "
+         "uncached at some point are not compared (documented behavioural difference).",
+         "DESIGN.md section 2 C09"),
+ "C14": ("fault_enumeration",
+         "exhaustive crash-point enumeration: every audited file-system operation / write / pickle dump of a save or load as failure point",
+         "Corpus of models x {directory, zip} x save histories gen1..gen_n; two-pass: count the N fault points of the last "
+         "operation fault-free, then re-run once per point (raise-before, torn write/dump/rmtree, PermissionError in copy_file, EXDEV "
+         "answer for the final move). Oracle: newest complete generation intact at path or _BAK1, backups ordered, zip destination "
+         "never partial, session clean and usable after failed saves and loads (every point of read_model, missing/truncated files).",
+         "Trusted: CPython audit events (open, os.rename, os.mkdir, os.remove, os.rmdir, os.scandir, shutil.*), wrapped file writes and "
+         "pickler dumps as the set of failure points; byte-wise generation digests.",
+         "DESIGN.md section 2 C14"),
+ "C17": ("fault_enumeration",
+         "exhaustive fault-point enumeration with histories of handled and unhandled failures; reference stack + line numbers as oracle",
+         "Shapes with calls on known lines (def formulas), lambdas/comprehensions/generator expressions, uncached links, ItemSpace, a "
+         "formula that catches a callee's failure, small recursion limit; BFS over arm/disarm/query (depth 4/5, up to 2 armed "
+         "faults) so every failure is preceded by successes, handled failures and unhandled failures. get_traceback() must list "
+         "exactly the reference evaluator's stack at the moment the exception escaped, with the reference's line numbers, and "
+         "get_error() must be the injected exception.",
+         "Trusted: mxmc/refsem.py (stack and traceback line numbers of the same source text), tick() fault injection.",
+         "DESIGN.md section 2 C17"),
 }
 NOT_BUILT = {}
 
